@@ -27,6 +27,7 @@ type ChainSpec struct {
 	NonCommit  float64 `json:"p_non_commit_slot"`
 	FailedProb float64 `json:"p_failed_round0"` // heights decided in round 1 after a round 0 in which honest validators precommitted nil
 	ForceFail  []int   `json:"force_failed_round0_steps,omitempty"`
+	Empty      bool    `json:"empty_blocks,omitempty"`
 	MinQuorum  bool    `json:"minimal_quorum_commits,omitempty"` // canonical commits carry exactly floor(2*total/3)+1 for-block power where a subset of the set sums to it
 }
 
@@ -41,18 +42,27 @@ type BehAt struct {
 }
 
 type PeerSpec struct {
-	Name   string  `json:"name"`
-	Honest bool    `json:"honest"`
-	Late   bool    `json:"connects_after_first_drop,omitempty"`
-	Base   int64   `json:"base"`
-	Height int64   `json:"height"` // claimed in StatusResponse
-	Beh    []BehAt `json:"beh,omitempty"`
+	Name   string `json:"name"`
+	Honest bool   `json:"honest"`
+	Late   bool   `json:"connects_after_first_drop,omitempty"`
+	// long-chain stage
+	LateAfter int     `json:"connects_after_n_error_drops,omitempty"` // with Late: how many peers the node must have dropped for an error first (default 1)
+	Silent    bool    `json:"never_answers,omitempty"`
+	Wave      int     `json:"wave,omitempty"`     // > 0: connects with that wave ...
+	Leaves    bool    `json:"leaves,omitempty"`   // ... and disconnects once it has been given requests
+	BadFrom   int64   `json:"bad_from,omitempty"` // answers heights in [BadFrom, BadTo] with BadKind
+	BadTo     int64   `json:"bad_to,omitempty"`
+	BadKind   string  `json:"bad_kind,omitempty"`
+	Base      int64   `json:"base"`
+	Height    int64   `json:"height"` // claimed in StatusResponse
+	Beh       []BehAt `json:"beh,omitempty"`
 }
 
 type Scenario struct {
 	Index        int        `json:"index"`
 	Tier         string     `json:"tier"`
 	Class        string     `json:"class"`
+	Variant      string     `json:"variant,omitempty"`
 	Version      string     `json:"reactor_version"`
 	Chain        ChainSpec  `json:"chain"`
 	First        int64      `json:"first_height"`
@@ -68,6 +78,12 @@ type Scenario struct {
 }
 
 func (p *PeerSpec) beh(h int64) BehAt {
+	if p.Silent {
+		return BehAt{H: h, Kind: "silent"}
+	}
+	if p.BadKind != "" && h >= p.BadFrom && h <= p.BadTo {
+		return BehAt{H: h, Kind: p.BadKind}
+	}
 	for _, b := range p.Beh {
 		if b.H == h {
 			return b
@@ -94,17 +110,42 @@ const (
 	nV2Thorough = 300
 )
 
-func nCases(tier string) int {
+// The long-chain stage ("long": 900-2500 empty blocks, many retried requests) comes after the others.
+const (
+	nLongQuick    = 4
+	nLongThorough = 40
+)
+
+func longBase(tier string) int {
 	if tier == "thorough" {
 		return nV0Thorough + nV1Thorough + nV2Thorough
 	}
 	return nV0Quick + nV1Quick + nV2Quick
 }
 
+func nCases(tier string) int {
+	if tier == "thorough" {
+		return longBase(tier) + nLongThorough
+	}
+	return longBase(tier) + nLongQuick
+}
+
+var longVariants = []string{"sybil-then", "waves", "redo", "sybil-meanwhile"}
+
 func versionOf(tier string, idx int) string {
 	a, b := nV0Quick, nV0Quick+nV1Quick
 	if tier == "thorough" {
 		a, b = nV0Thorough, nV0Thorough+nV1Thorough
+	}
+	if k := idx - longBase(tier); k >= 0 {
+		// thorough: every eighth case drives v1, every sixteenth v2
+		if tier == "thorough" && k%8 == 6 {
+			return "v1"
+		}
+		if tier == "thorough" && k%16 == 15 {
+			return "v2"
+		}
+		return "v0"
 	}
 	switch {
 	case idx < a:
@@ -116,6 +157,9 @@ func versionOf(tier string, idx int) string {
 }
 
 func classOf(tier string, idx int) string {
+	if idx >= longBase(tier) {
+		return "long"
+	}
 	if tier == "thorough" {
 		if idx%10 == 9 {
 			return "timeout"
@@ -155,7 +199,7 @@ func (w *world) rec(h int64) *chaingen.HeightRec { return w.c.Hist[h] }
 
 func buildChain(sp ChainSpec) *world {
 	r := rand.New(rand.NewSource(sp.Seed))
-	c := chaingen.New(chaingen.Options{ChainID: chainID, Seed: sp.Seed, Powers: sp.Powers, InitialHeight: sp.Initial})
+	c := chaingen.New(chaingen.Options{ChainID: chainID, Seed: sp.Seed, Powers: sp.Powers, InitialHeight: sp.Initial, NoBlockStore: true})
 	// the harness's model of the application's validator table (address -> power)
 	model := map[string]int64{}
 	keyOf := map[string]ed25519.PrivKey{}
@@ -168,7 +212,7 @@ func buildChain(sp ChainSpec) *world {
 	for i := 0; i < sp.Len; i++ {
 		vals := c.State.Validators
 		var txs []types.Tx
-		for j, n := 0, r.Intn(4); j < n; j++ {
+		for j, n := 0, r.Intn(4); j < n && !sp.Empty; j++ {
 			txs = append(txs, types.Tx(fmt.Sprintf("k%d_%d=%x", i, j, r.Int63())))
 		}
 		if sp.ValChanges && i < sp.Len-3 && r.Intn(3) == 0 {
@@ -538,9 +582,75 @@ func setBeh(beh []BehAt, b BehAt) []BehAt {
 	return append(beh, b)
 }
 
+// genLong: a long chain of empty blocks and many requests that are never answered and have to be
+// retried elsewhere, far beyond the pool's initial window of requesters (600 in v0):
+//
+//	sybil-then / sybil-meanwhile: 30-40 silent peers advertise a high tip, take their full share of
+//	    requests and never answer (peer timeout -> removal -> retry); one honest peer with the whole
+//	    chain connects after the last of them is gone / is there from the start;
+//	waves: the honest peer is connected throughout while 8-12 waves of 4-6 peers each connect, are
+//	    given requests and disconnect;
+//	redo: 6-10 liars, each answering a stretch of heights with wrong blocks at a different place along
+//	    the chain, are removed one after the other by failed verifications.
+func genLong(c *verdict.Ctx, idx int, r *rand.Rand, sc *Scenario) (*Scenario, *world) {
+	k := idx - longBase(c.Tier)
+	sc.Variant = longVariants[(k+k/8)%len(longVariants)]
+	n := 900 + r.Intn(500)
+	if c.Tier == "thorough" {
+		n = 900 + r.Intn(1601)
+	}
+	sc.Chain = ChainSpec{Seed: r.Int63(), Powers: []int64{10, 10, 10, 10}, Len: n, Initial: 1, Empty: true}
+	w := buildChain(sc.Chain)
+	sc.First, sc.Last = w.first, w.last
+	for a := range w.F {
+		sc.LiarVals = append(sc.LiarVals, fmt.Sprintf("%X", a))
+	}
+	sort.Strings(sc.LiarVals)
+	sc.SchedSeed = r.Int63()
+	sc.WindowMs, sc.HoldProb = 1, 0
+	T := w.last
+	full := func(name string) PeerSpec { return PeerSpec{Name: name, Honest: true, Base: w.first, Height: T} }
+	switch sc.Variant {
+	case "sybil-then", "sybil-meanwhile":
+		ns := 30 + r.Intn(11)
+		tip := T
+		if r.Intn(2) == 0 {
+			tip = T + int64(1+r.Intn(300))
+		}
+		for i := 0; i < ns; i++ {
+			sc.Peers = append(sc.Peers, PeerSpec{Name: fmt.Sprintf("sybil%d", i), Base: w.first, Height: tip, Silent: true})
+		}
+		h := full("h0")
+		if sc.Variant == "sybil-then" {
+			h.Late, h.LateAfter = true, ns
+		}
+		sc.Peers = append(sc.Peers, h)
+		sc.Timeouts = true
+	case "waves":
+		sc.Peers = append(sc.Peers, full("h0"))
+		for wv, nw := 1, 8+r.Intn(5); wv <= nw; wv++ {
+			for i, m := 0, 4+r.Intn(3); i < m; i++ {
+				sc.Peers = append(sc.Peers, PeerSpec{Name: fmt.Sprintf("w%d_%d", wv, i), Base: w.first, Height: T, Wave: wv, Leaves: true, Silent: r.Intn(3) != 0})
+			}
+		}
+	case "redo":
+		sc.Peers = append(sc.Peers, full("h0"), full("h1"))
+		nl := 6 + r.Intn(5)
+		for i := 0; i < nl; i++ {
+			from := w.first + int64(i+1)*int64(n)/int64(nl+1)
+			sc.Peers = append(sc.Peers, PeerSpec{Name: fmt.Sprintf("liar%d", i), Base: w.first, Height: T,
+				BadFrom: from, BadTo: from + 40, BadKind: []string{"wrongTxs", "wrongHeader", "minority"}[r.Intn(3)]})
+		}
+	}
+	return sc, w
+}
+
 func genScenario(c *verdict.Ctx, idx int) (*Scenario, *world) {
 	r := c.Rand("scenario", idx)
 	sc := &Scenario{Index: idx, Tier: c.Tier, Class: classOf(c.Tier, idx), Version: versionOf(c.Tier, idx)}
+	if sc.Class == "long" {
+		return genLong(c, idx, r, sc)
+	}
 	n := 4 + r.Intn(4)
 	if sc.Class == "tip" {
 		n = []int{4, 4, 6, 7}[r.Intn(4)]
